@@ -226,7 +226,8 @@ func TestMC_C29(t *testing.T) {
 	c.Assume("membership is installed by the real LoadConsensusNodes over a stub storage.Store that returns synthetic node records in a chosen order (50-node histories through full finalization would dominate the cost; real histories are C09/C11's subject)",
 		"oldest/newest accepted node = first/last of the accepted members ordered by (acceptance timestamp, node id text), the order every node derives",
 		"query instants are later than every membership record (the one instant now == epoch is skipped: no node is accepted strictly before it)",
-		"documented windows: accept/cancel/remove epoch-hours 13..19, mint 7..9, pledge = outside both")
+		"documented windows: accept/cancel/remove epoch-hours 13..19, mint 7..9, pledge = outside both",
+		"intra-day part: the oldest node is removed at 14:00 and/or a node is accepted at 15:00 of day d; two nodes are asked the same instants of that day in ascending resp. descending order, a third is reloaded (LoadConsensusNodes) before every instant and serves as the order-free reference")
 
 	// ---- configurations ----
 	var cfgs []c29Config
@@ -482,6 +483,9 @@ func TestMC_C29(t *testing.T) {
 	// ---- entry points reject outside their windows (representative day) ----
 	c29EntryPoints(c)
 
+	// ---- membership changes inside a day, query order ----
+	c29IntraDay(c)
+
 	c.Sample(map[string]any{"n": 7, "pattern": "equal", "extra": "none", "op": "remove", "day": 0, "hour": 13, "minute": 0, "expect": "elected is an interior accepted node; no candidate (only 7 accepted)"})
 	c.Sample(map[string]any{"n": 50, "pattern": "tie-mid", "extra": "removed", "op": "remove", "day": lastDay, "hour": 19, "minute": 59, "expect": "candidate = oldest accepted; elected != candidate on both nodes"})
 	c.Sample(map[string]any{"n": 8, "pattern": "increasing", "extra": "pledging", "op": "mint", "day": 6, "hour": 7, "minute": 0, "expect": "pledging newest node is never elected nor shields the newest accepted node"})
@@ -621,4 +625,189 @@ func c29EntryPoints(c *verifmc.Check) {
 	}
 	c.Require(counts["pledge:passed-inside"] > 0 && counts["cancel:passed-inside"] > 0 && counts["accept:passed-inside"] > 0, "entry points never passed inside their windows: %v", counts)
 	c.Require(counts["remove:inside-hour-ok-later-check-failed"] > 0, "remove entry never got past its hour check: %v", counts)
+}
+
+// c29IntraDay: memberships that change inside an epoch day. kind 0: the oldest
+// accepted node is removed at 14:00 of day d; kind 1: a node is accepted at
+// 15:00 of day d; kind 2: both. Node A answers the instants of day d in
+// ascending order, node B in descending order, node R is reloaded before each
+// instant. Per instant all three must agree and the elected node must be an
+// accepted node that is neither the oldest nor the newest nor the removal
+// candidate of that instant.
+func c29IntraDay(c *verifmc.Check) {
+	days := verifmc.Pick(c, []int{1, 2, 3, 7, 30, 200}, []int{1, 2, 3, 4, 5, 6, 7, 8, 9, 10, 11, 12, 13, 14, 15, 16, 17, 18, 19, 20, 21, 22, 23, 24, 30, 47, 48, 49, 200, 364, 365, 3650})
+	kinds := []string{"remove@14:00", "accept@15:00", "remove@14:00+accept@15:00"}
+	type job struct{ n, pat, kind, day int }
+	var jobs []job
+	for n := 7; n <= 50; n++ {
+		for pat := 0; pat < 2; pat++ {
+			for kind := 0; kind < 3; kind++ {
+				if kind != 1 && n < 8 {
+					continue // the removal must leave the minimum of 7 accepted nodes
+				}
+				if kind == 1 && n == 50 {
+					continue // at the cap no node can be accepted
+				}
+				for _, d := range days {
+					jobs = append(jobs, job{n, pat, kind, d})
+				}
+			}
+		}
+	}
+	c.Set("intraday_configurations", int64(len(jobs)))
+	var mu sync.Mutex
+	counts := map[string]int64{}
+	var zero crypto.Hash
+	c.ParallelN(len(jobs), "intra-day sweep", func(_, ji int) {
+		j := jobs[ji]
+		d0 := c29Epoch + uint64(j.day)*c29Day
+		recs := c29Config{j.n, j.pat, 0}.records()
+		// the oldest accepted node by (timestamp, id text)
+		oldest := 0
+		for i := 1; i < j.n; i++ {
+			if recs[i].ts < recs[oldest].ts || (recs[i].ts == recs[oldest].ts && c29Id(i).String() < c29Id(oldest).String()) {
+				oldest = i
+			}
+		}
+		if j.kind != 1 {
+			recs = append(recs, c29Rec{oldest, d0 + 14*c29Hour, common.NodeStateRemoved})
+		}
+		if j.kind != 0 {
+			recs = append(recs, c29Rec{53, d0 + 15*c29Hour, common.NodeStateAccepted})
+		}
+		order := make([]int, len(recs))
+		for i := range order {
+			order[i] = i
+		}
+		A, errA := c29BuildNode(recs, order, j.pat == 0)
+		B, errB := c29BuildNode(recs, order, j.pat == 0)
+		R, errR := c29BuildNode(recs, order, j.pat == 0)
+		if errA != nil || errB != nil || errR != nil {
+			c.Require(false, "intra-day nodes: %v %v %v", errA, errB, errR)
+			return
+		}
+		instants := []uint64{
+			d0 + 3*c29Hour, d0 + 13*c29Hour + 30*uint64(time.Minute), d0 + 14*c29Hour, d0 + 14*c29Hour + 1, d0 + 14*c29Hour + 30*uint64(time.Minute),
+			d0 + 15*c29Hour, d0 + 15*c29Hour + 1, d0 + 15*c29Hour + 30*uint64(time.Minute), d0 + 21*c29Hour,
+		}
+		type ans struct {
+			h crypto.Hash
+			p any
+		}
+		elected := func(node *Node, asc bool) map[[2]int]ans {
+			out := map[[2]int]ans{}
+			for k := range instants {
+				ti := k
+				if !asc {
+					ti = len(instants) - 1 - k
+				}
+				for oi, o := range c29Ops {
+					if !o.elected {
+						continue
+					}
+					h, p := c29Elect(node, o.op, instants[ti])
+					out[[2]int{ti, oi}] = ans{h, p}
+				}
+			}
+			return out
+		}
+		ansA, ansB := elected(A, true), elected(B, false)
+		local := map[string]int64{}
+		var evals int64
+		for ti, now := range instants {
+			if p := verifmc.Catch(func() { _ = R.LoadConsensusNodes() }); p != nil {
+				c.Require(false, "reference reload panicked: %v", p)
+				return
+			}
+			// reference membership at this instant
+			type member struct {
+				id crypto.Hash
+				ts uint64
+				s  string
+			}
+			latest := map[int]c29Rec{}
+			for _, r := range recs { // recs are in non-decreasing timestamp order per node
+				if r.ts < now {
+					latest[r.who] = r
+				}
+			}
+			var acc []member
+			for who, r := range latest {
+				if r.state == common.NodeStateAccepted {
+					id := c29Id(who)
+					acc = append(acc, member{id, r.ts, id.String()})
+				}
+			}
+			sort.Slice(acc, func(a, b int) bool {
+				if acc[a].ts != acc[b].ts {
+					return acc[a].ts < acc[b].ts
+				}
+				return acc[a].s < acc[b].s
+			})
+			pos := map[crypto.Hash]int{}
+			for i, m := range acc {
+				pos[m.id] = i
+			}
+			candi, cerr, cp := c29Candidate(R, zero, now)
+			if cp != nil || cerr != nil {
+				candi = nil
+				if cerr != nil {
+					local["intraday:no-candidate:"+c29ErrClass(cerr)]++
+				}
+			} else {
+				local["intraday:candidate"]++
+			}
+			for oi, o := range c29Ops {
+				if !o.elected {
+					continue
+				}
+				r, rp := c29Elect(R, o.op, now)
+				a, b := ansA[[2]int{ti, oi}], ansB[[2]int{ti, oi}]
+				evals += 3
+				c.Distinct(fmt.Sprintf("intraday|%d|%d|%d|%d|%d|%s", j.n, j.pat, j.kind, j.day, ti, o.name))
+				replay := map[string]any{"n": j.n, "pattern": c29PatNames[j.pat], "change": kinds[j.kind], "day": j.day, "instant_index": ti, "instant": now, "epoch": c29Epoch, "op": o.name}
+				where := fmt.Sprintf("n=%d/%s/%s day=%d instant#%d op=%s", j.n, c29PatNames[j.pat], kinds[j.kind], j.day, ti, o.name)
+				if rp != nil || a.p != nil || b.p != nil {
+					c.Violation("elect:panic", fmt.Sprintf("%s: election panics (%v/%v/%v) with %d accepted nodes", where, a.p, b.p, rp, len(acc)), replay)
+					continue
+				}
+				if a.h != r || b.h != r {
+					local["intraday:order-dependent"]++
+					c.Violation("elect:nodes-disagree:query-order", fmt.Sprintf("%s: a node asked the day's instants in ascending order elects %s, one asked in descending order %s, a freshly loaded one %s", where, a.h, b.h, r), replay)
+				}
+				for _, h := range []crypto.Hash{a.h, b.h, r} {
+					p, ok := pos[h]
+					switch {
+					case !ok:
+						c.Violation("elect:not-accepted-member", fmt.Sprintf("%s: elected %s is not an accepted node at that instant", where, h), replay)
+					case p == 0:
+						c.Violation("elect:oldest", fmt.Sprintf("%s: the oldest accepted node of that instant %s is elected", where, h), replay)
+					case p == len(acc)-1:
+						c.Violation("elect:newest", fmt.Sprintf("%s: the newest accepted node of that instant %s is elected", where, h), replay)
+					}
+					if o.op == common.TransactionTypeNodeRemove && candi != nil && h == candi.IdForNetwork {
+						c.Violation("elect:removal-candidate", fmt.Sprintf("%s: node %s is elected to propose its own removal", where, h), replay)
+					}
+				}
+				local["intraday:elected"]++
+			}
+		}
+		// the membership really changes inside the day
+		before, after := len(R.NodesListWithoutState(instants[0], true)), len(R.NodesListWithoutState(instants[len(instants)-1], true))
+		if (j.kind == 2 && before == after) || (j.kind != 2 && before != after) {
+			local["intraday:membership-changed"]++
+		}
+		c.Eval(evals)
+		mu.Lock()
+		for k, v := range local {
+			counts[k] += v
+		}
+		mu.Unlock()
+	})
+	for k, v := range counts {
+		c.Outcome(k)
+		c.Set("count:"+k, v)
+	}
+	c.Require(counts["intraday:membership-changed"] == int64(len(jobs)) || c.Expired("final"), "membership did not change inside the day in every intra-day configuration (%d of %d)", counts["intraday:membership-changed"], len(jobs))
+	c.Require(counts["intraday:elected"] > 0 && counts["intraday:candidate"] > 0 && counts["intraday:no-candidate:invalid-period"] > 0, "intra-day outcome classes not reached: %v", counts)
 }
